@@ -2,7 +2,7 @@
 from __future__ import annotations
 
 import ast
-from typing import List
+from typing import Any, List
 
 from ..engine.match import Spec, find_calls, require_call, require_guard, require_return, residual
 from ..engine.repo import AnalysisError, func_body
@@ -117,35 +117,62 @@ def r01_6(ck: Check) -> None:
     # SECP256k1PublicKey.validate
     s = ck.summ(SIG + "SECP256k1PublicKey.validate", 0)
     sp = Spec(s, ("self", "sig", "msg"))
-    vk = sp.term("ecdsa.VerifyingKey.from_string(self.public_key, curve=ecdsa.SECP256k1)")
-    verify = ("call", ("a", vk, "verify"), (sp.term("sig.signature"), sp.term("msg")), ())
-    verifies = [e for e in s.events if e.kind == "call" and e.term == verify]
     construct = "SECP256k1PublicKey.validate: True only after vk.verify(sig.signature, message) completed, vk from self.public_key on secp256k1"
-    bad = []
-    n_true = 0
     guard = sp.term("isinstance(sig, SECP256k1Signature)")
-    for r in s.returns():
-        if r.term == C(False):
-            continue
-        if r.term != C(True):
-            bad.append("returns %s" % show(r.term))
-            continue
-        n_true += 1
-        if any(c.prov == "handler" for c in r.pc):
-            bad.append("returns True from an exception handler")
-            continue
-        pre = [e for e in verifies if after_completion(e, r)]
-        if not pre:
-            bad.append("a `return True` is not preceded by the verification call in the same try block (or its else-block)")
-        if not any(c.term == guard for c in r.pc):
-            bad.append("`return True` is reachable for a non-SECP256k1Signature object")
-    # the try around verify must not swallow into a truthy value: handlers return False
-    if n_true == 0:
-        bad.append("never returns True")
+    bad = _verdict_only_after_verify(ck, s, {"pk": sp.term("self.public_key"), "sig": sp.term("sig.signature"), "msg": sp.term("msg")}, guard, 0)
     if bad:
         ck.violated("R01.6", construct, "; ".join(sorted(set(bad))), s.fi.loc)
     else:
         ck.ok("R01.6", construct, "", s.fi.loc)
+
+
+def _verdict_only_after_verify(ck: Check, s: Any, roles: Any, guard: Any, depth: int) -> List[str]:
+    """every way the function answers True passes a completed `VerifyingKey.from_string(pk, curve=SECP256k1).verify(sig, msg)`;
+    a verdict handed on from a function added later (e.g. a memoised or shared verification routine) is followed into that function"""
+    from ..engine.terms import subterms as _sub
+    vk = ("call", ("g", "ext:ecdsa.VerifyingKey.from_string"), (roles["pk"],), (("curve", ("g", "ext:ecdsa.SECP256k1")),))
+    verify = ("call", ("a", vk, "verify"), (roles["sig"], roles["msg"]), ())
+    verifies = [e for e in s.events if e.kind == "call" and e.term == verify]
+    bad: List[str] = []
+    n_true = 0
+
+    def arms(t: Any) -> List[Any]:
+        return arms(t[2]) + arms(t[3]) if t[0] == "ife" and len(t) == 4 else [t]
+    for r in s.returns():
+        for t in arms(r.term):
+            if t == C(False):
+                continue
+            if t == C(True):
+                n_true += 1
+                if any(c.prov == "handler" for c in r.pc):
+                    bad.append("returns True from an exception handler")
+                    continue
+                if not [e for e in verifies if after_completion(e, r)]:
+                    bad.append("a `return True` is not preceded by the verification call in the same try block (or its else-block)")
+                if guard is not None and not any(c.term == guard for c in r.pc):
+                    bad.append("`return True` is reachable for a non-SECP256k1Signature object")
+                continue
+            q = t[1][1] if t[0] == "call" and t[1][0] == "g" else None
+            fi = ck.repo.functions.get(q) if q else None
+            if fi is None or depth >= 3 or (ck.walker.api is not None and q in ck.walker.api) or t[3] or len(t[2]) != len(fi.params):
+                bad.append("returns %s" % show(t)[:120])
+                continue
+            if guard is not None and not any(c.term == guard for c in r.pc):
+                bad.append("a verdict is reachable for a non-SECP256k1Signature object")
+            # which parameter of the callee plays which role
+            sub: Any = {}
+            for role, term in roles.items():
+                pos = [i for i, a in enumerate(t[2]) if a == term]
+                if len(pos) != 1:
+                    bad.append("%s is handed %s: the %s is not passed on as it is" % (short(q), [show(a)[:40] for a in t[2]], role))
+                    break
+                sub[role] = ("v", fi.params[pos[0]])
+            else:
+                n_true += 1
+                bad.extend(_verdict_only_after_verify(ck, ck.summ(q, 0), sub, None, depth + 1))
+    if n_true == 0:
+        bad.append("never returns True")
+    return bad
 
 
 def r01_7(ck: Check) -> None:
